@@ -2,7 +2,7 @@
   C04 — class lookup is exact and method lookup never guesses when ambiguous, for both the
   mapper (PG/Props/C04m.lean, all record lists) and the cache reader (through C02).
 -/
-import PG.Props.C02
+import PG.Props.C01
 namespace PG
 
 theorem C04_cache_class (recs : List Record) (hr : ReprR recs) (hs : (Tables.build recs).Small)
@@ -14,5 +14,16 @@ theorem C04_cache_method (recs : List Record) (hr : ReprR recs) (hs : (Tables.bu
     (c : Cache) (hc : Cache.parse (Cache.write recs) = .ok c) (cls m : Bytes) :
     c.remapMethod cls m = SpecR.methodOf recs cls m := by
   rw [C02_method recs hr hs true c hc cls m, C04_method]
+
+/-- at the level of mapping bytes printed from the grammar -/
+theorem C04_file (ls : List (Line × Bytes)) (pm : Bool) (c m : Bytes)
+    (h : ∀ x ∈ ls, x.1.WF ∧ x.2 ≠ [] ∧ ∀ b ∈ x.2, isNewline b = true) :
+    (Mapper.ofBytes ((ls.map (fun x => x.1.print ++ x.2)).flatten) pm).remapClass c =
+        SpecR.classOf (ls.map (fun x => x.1.toRecord)) c ∧
+    (Mapper.ofBytes ((ls.map (fun x => x.1.print ++ x.2)).flatten) pm).remapMethod c m =
+        SpecR.methodOf (ls.map (fun x => x.1.toRecord)) c m := by
+  unfold Mapper.ofBytes
+  rw [okRecs_printed ls h]
+  exact ⟨C04_class _ pm c, C04_method _ pm c m⟩
 
 end PG
